@@ -48,8 +48,22 @@ def _plan(draw, max_rows):
             kind = same[0]["kind"]     # colliding columns of different kinds are outside the statement
         right.append({"name": name, "kind": kind, "vals": draw(gen.values(kind, nr))})
     right = [right[i] for i in draw(st.permutations(range(len(right))))]
-    return {"left": {"n": nl, "cols": left}, "right": {"n": nr, "cols": right}, "by": by,
+    plan = {"left": {"n": nl, "cols": left}, "right": {"n": nr, "cols": right}, "by": by,
             "op": draw(st.sampled_from(OPS))}
+    if nl and nr and draw(st.integers(0, 3)) == 0:
+        # history: join, edit a key cell of the same right (or left) frame in place, join again
+        edits = []
+        for _ in range(draw(st.integers(1, 2))):
+            side = draw(st.sampled_from(["right", "right", "left"]))
+            ln, rn = by[draw(st.integers(0, nk - 1))]
+            cols = left if side == "left" else right
+            c = next(c for c in cols if c["name"] == (ln if side == "left" else rn))
+            if c["kind"] == "u":
+                continue
+            edits.append([side, c["name"], draw(st.integers(0, (nl if side == "left" else nr) - 1)),
+                          draw(gen.value(c["kind"], "tight"))])
+        plan["edits"] = edits
+    return plan
 
 
 def strategy(tier):
@@ -93,9 +107,35 @@ def by_arg(plan):
     return [a if a == b else (a, b) for a, b in plan["by"]]
 
 
+_PHASE = [""]
+
+
+class Violation(Violation):                    # prefixes the phase to every message of this module
+    def __init__(self, what, **detail):
+        super().__init__(_PHASE[0] + what, **detail)
+
+
 def check(plan, ctx):
     L = build.frame(plan["left"], rid="_la_")
     R = build.frame(plan["right"], rid="_rb_")
+    _check_join(plan, L, R, ctx)
+    if plan.get("edits"):
+        p2 = dict(plan)
+        for side in ("left", "right"):
+            p2[side] = {"n": plan[side]["n"], "cols": [dict(c, vals=list(c["vals"])) for c in plan[side]["cols"]]}
+        for side, name, row, v in plan["edits"]:
+            c = next(c for c in p2[side]["cols"] if c["name"] == name)
+            c["vals"][row] = v
+            (L if side == "left" else R)[name][row] = build.np_array(c["kind"], [v])[0]
+        ctx.cls("joined_again_after_in_place_edit")
+        _PHASE[0] = "after an in-place edit of an operand: "
+        try:
+            _check_join(p2, L, R, ctx)
+        finally:
+            _PHASE[0] = ""
+
+
+def _check_join(plan, L, R, ctx):
     ls, rs = build.table(L), build.table(R)
     lb, rb = build.snap_frame(L), build.snap_frame(R)
     nl, nr = plan["left"]["n"], plan["right"]["n"]
